@@ -666,7 +666,11 @@ class Body:
         if dty != "bool":
             return None
         if len(arms) == 1 and arms[0][0] == 0:
-            return (discr, other, arms[0][1])
+            t_edge, f_edge = other, arms[0][1]
+            # `if !c { A } else { B }` is `if c { B } else { A }`: conditions are reported without leading negations
+            while isinstance(discr, tuple) and len(discr) == 3 and discr[0] == "unop" and discr[1] == "Not":
+                discr, t_edge, f_edge = discr[2], f_edge, t_edge
+            return (discr, t_edge, f_edge)
         return None
 
 
